@@ -234,6 +234,16 @@ check('negative replication', rules('module m(input a, output [1:0] r); assign r
 check('module twice', rules('module m(input a, output r); assign r = a; endmodule module m(input a, output r); assign r = a; endmodule'), ['R4'])
 check('clean', rules('module m(input clk, input a, output r); reg x = 0; always @(posedge clk) x <= a; assign r = x; endmodule'), [])
 
+# an undeclared identifier in a port connection is an implicit net: reported (R2, R6) and simulated as an undriven net
+_t = ('module m(input clk, input a, output r); s i_s(.ck(clkk), .a(a), .r(r)); endmodule '
+      'module s(input ck, input a, output r); reg x = 0; always @(posedge ck) x <= a; assign r = x; endmodule')
+check('implicit net reported', 'R2' in rules(_t), True)
+_d = V.elaborate(_t, external=['a'])
+_s = V.Sim(_d)
+_s.poke('a', 1)
+_s.cycle()
+check('register on an implicit (never toggling) clock keeps its value', _s.peek('r'), 0)
+
 if FAILS:
     print('vlog self-test FAILED:')
     for f in FAILS:
